@@ -118,11 +118,9 @@ pub fn profile(id: &str) -> Option<Profile> {
             g.op_weights = [30, 10, 40, 8, 2, 5, 0, 0, 3];
             g.hot_clusters = 5;
             // overlapping discards from several tasks, with flushes and
-            // writes around them (no discard shares a cluster with a write
-            // of another client: that race is finding KF02)
+            // writes around them
             g.par_pct = 20;
             g.max_clients = 4;
-            g.racy_discard_pct = 0;
             o.need_flush = false;
             (Kind::Engine, 5000, 200_000)
         }
